@@ -30,14 +30,41 @@ Proof.
   destruct ((w1 <? c_min_w k) || (w1 >? c_max_w k)) eqn:E2; simpl; split; try discriminate; try reflexivity; lia.
 Qed.
 
-(* what the code accepts: the width has no upper bound (its test compares the scale with MAX_DECIMAL_WIDTH) *)
-Lemma impl_accept_iff k ew es g : wf_consts k ->
-  accepted (set_decimal_config_impl k ew es g) = true <->
+(* an accepted call publishes the effective configuration, a rejected one leaves the globals alone *)
+Lemma spec_state k ew es g :
+  state_after (set_decimal_config_spec k ew es g) =
+  if accepted (set_decimal_config_spec k ew es g)
+  then mkG (eff (c_disable k) (c_max_w k) (from_env ew (c_def_w k))) (eff (c_disable k) (c_max_s k) (from_env es (c_def_s k)))
+  else g.
+Proof.
+  unfold set_decimal_config_spec. destruct (_ || _); [reflexivity|]. destruct (_ || _); reflexivity.
+Qed.
+
+(* the verdict (accepted with which configuration / rejected for which variable with which value) ignores the globals *)
+Definition verdict (r : cfg_result) : option globals * option (cfgvar * Z) :=
+  match r with Accepted g => (Some g, None) | Rejected v bad _ => (None, Some (v, bad)) end.
+
+Lemma spec_history_independent k ew es g1 g2 :
+  verdict (set_decimal_config_spec k ew es g1) = verdict (set_decimal_config_spec k ew es g2).
+Proof.
+  unfold set_decimal_config_spec. destruct (_ || _); [reflexivity|]. destruct (_ || _); reflexivity.
+Qed.
+
+(* the spec: an unset variable is its documented default *)
+Lemma spec_unset_is_default k ew es g :
+  set_decimal_config_spec k ew es g =
+  set_decimal_config_spec k (Some (from_env ew (c_def_w k))) (Some (from_env es (c_def_s k))) g.
+Proof. destruct ew, es; reflexivity. Qed.
+
+(* ---- the code before the repair (regression witnesses) *)
+(* what it accepted: the width had no upper bound (its test compared the scale with MAX_DECIMAL_WIDTH) *)
+Lemma prefix_accept_iff k ew es g : wf_consts k ->
+  accepted (set_decimal_config_prefix k ew es g) = true <->
   (let w := from_env ew (g_w g) in w = c_disable k \/ c_min_w k <= w) /\
   in_range (c_min_s k) (c_max_s k) (c_disable k) (from_env es (g_s g)).
 Proof.
   intros (Hw & Hs & Hsw). rewrite <- (eff_range _ _ _ _ Hs). cbv zeta.
-  unfold set_decimal_config_impl.
+  unfold set_decimal_config_prefix.
   set (w0 := from_env ew _). set (s1 := eff _ _ (from_env es _)).
   assert (Ew : c_min_w k <= eff (c_disable k) (c_max_w k) w0 <-> (w0 = c_disable k \/ c_min_w k <= w0))
     by (unfold eff; destruct (w0 =? c_disable k) eqn:E; lia).
@@ -46,60 +73,36 @@ Proof.
   destruct ((w1 <? c_min_w k) || (s1 >? c_max_w k)) eqn:E2; simpl; split; try discriminate; try reflexivity; lia.
 Qed.
 
-Lemma spec_history_independent k ew es g1 g2 :
-  set_decimal_config_spec k ew es g1 = set_decimal_config_spec k ew es g2.
-Proof. reflexivity. Qed.
-
-Lemma impl_history_independent_when_both_set k w s g1 g2 :
-  set_decimal_config_impl k (Some w) (Some s) g1 = set_decimal_config_impl k (Some w) (Some s) g2.
-Proof. reflexivity. Qed.
-
-(* stickiness, exactly: a call with both variables unset repeats the outcome of the previous call, whatever that was *)
-Lemma impl_unset_repeats_previous k ew es g :
-  set_decimal_config_impl k None None (state_after (set_decimal_config_impl k ew es g)) =
-  set_decimal_config_impl k ew es g.
+(* its stickiness, exactly: a call with both variables unset repeated the outcome of the previous call, whatever that was *)
+Lemma prefix_unset_repeats_previous k ew es g :
+  set_decimal_config_prefix k None None (state_after (set_decimal_config_prefix k ew es g)) =
+  set_decimal_config_prefix k ew es g.
 Proof.
-  remember (set_decimal_config_impl k ew es g) as r eqn:Hr. unfold set_decimal_config_impl in Hr.
+  remember (set_decimal_config_prefix k ew es g) as r eqn:Hr. unfold set_decimal_config_prefix in Hr.
   set (w1 := eff _ _ (from_env ew _)) in Hr. set (s1 := eff _ _ (from_env es _)) in Hr.
-  assert (R : set_decimal_config_impl k None None (mkG w1 s1) =
-              (if (s1 <? c_min_s k) || (s1 >? c_max_s k) then Rejected VarScale (mkG w1 s1)
-               else if (w1 <? c_min_w k) || (s1 >? c_max_w k) then Rejected VarWidth (mkG w1 s1)
+  assert (R : set_decimal_config_prefix k None None (mkG w1 s1) =
+              (if (s1 <? c_min_s k) || (s1 >? c_max_s k) then Rejected VarScale s1 (mkG w1 s1)
+               else if (w1 <? c_min_w k) || (s1 >? c_max_w k) then Rejected VarWidth w1 (mkG w1 s1)
                else Accepted (mkG w1 s1))).
-  { unfold set_decimal_config_impl. simpl from_env. simpl g_w. simpl g_s. unfold w1, s1. rewrite !eff_idem. reflexivity. }
+  { unfold set_decimal_config_prefix. simpl from_env. simpl g_w. simpl g_s. unfold w1, s1. rewrite !eff_idem. reflexivity. }
   destruct ((s1 <? c_min_s k) || (s1 >? c_max_s k)); [subst r; exact R|].
   destruct ((w1 <? c_min_w k) || (s1 >? c_max_w k)); subst r; exact R.
 Qed.
 
-Lemma impl_both_set_state k w s g :
-  state_after (set_decimal_config_impl k (Some w) (Some s) g) =
-  mkG (eff (c_disable k) (c_max_w k) w) (eff (c_disable k) (c_max_s k) s).
-Proof.
-  unfold set_decimal_config_impl. simpl from_env.
-  destruct (_ || _); [reflexivity|]. destruct (_ || _); reflexivity.
-Qed.
-
-(* the spec: an unset variable is its documented default *)
-Lemma spec_unset_is_default k es g :
-  set_decimal_config_spec k None es g = set_decimal_config_spec k (Some (c_def_w k)) es g.
-Proof. reflexivity. Qed.
-Lemma spec_unset_is_default_s k ew g :
-  set_decimal_config_spec k ew None g = set_decimal_config_spec k ew (Some (c_def_s k)) g.
-Proof. reflexivity. Qed.
-
 (* ------------------------------------------------------------------ run level *)
 Lemma run_config_cfgerror_iff f ew es g v :
-  fst (run_config f ew es g) = CfgRejected v <-> exists g', f ew es g = Rejected v g'.
+  fst (run_config f ew es g) = CfgRejected v <-> exists bad g', f ew es g = Rejected v bad g'.
 Proof.
-  unfold run_config. destruct (f ew es g) as [g'|v' g']; simpl.
-  - destruct (decimal_type_ok _ _); split; try discriminate; intros [? ?]; discriminate.
-  - split; [intros H; injection H as ->; eauto | intros [g'' H]; injection H as -> _; reflexivity].
+  unfold run_config. destruct (f ew es g) as [g'|v' bad' g']; simpl.
+  - destruct (decimal_type_ok _ _); split; try discriminate; intros (? & ? & ?); discriminate.
+  - split; [intros H; injection H as ->; eauto | intros (b & g'' & H); injection H as -> _ _; reflexivity].
 Qed.
 
 Lemma run_config_raw_iff f ew es g :
   fst (run_config f ew es g) = RawBinder <->
   exists g', f ew es g = Accepted g' /\ decimal_type_ok (g_w g') (g_s g') = false.
 Proof.
-  unfold run_config. destruct (f ew es g) as [g'|v' g']; simpl.
+  unfold run_config. destruct (f ew es g) as [g'|v' bad' g']; simpl.
   - destruct (decimal_type_ok (g_w g') (g_s g')) eqn:E; simpl; split.
     + discriminate.
     + intros (g'' & H & H2). injection H as <-. congruence.
@@ -277,10 +280,10 @@ Proof.
   rewrite Z.eqb_eq. split; [intros ->; reflexivity | intros H; injection H; auto].
 Qed.
 
-Lemma or3_eqb_eq a b : or3_eqb a b = true <-> a = b.
+Lemma or4_eqb_eq a b : or4_eqb a b = true <-> a = b.
 Proof.
-  destruct a as [[[a1 a2] a3]|], b as [[[b1 b2] b3]|]; simpl; try (split; discriminate); try tauto.
-  rewrite !andb_true_iff, !Z.eqb_eq. split; [intros [[-> ->] ->]; reflexivity | intros H; injection H; auto].
+  destruct a as [[[[a1 a2] a3] a4]|], b as [[[[b1 b2] b3] b4]|]; simpl; try (split; discriminate); try tauto.
+  rewrite !andb_true_iff, !Z.eqb_eq. split; [intros [[[-> ->] ->] ->]; reflexivity | intros H; injection H; auto].
 Qed.
 
 Definition sweep_cfg (priors : list globals) (axis : list (option Z)) (P : globals -> option Z -> option Z -> bool) : bool :=
